@@ -1,10 +1,13 @@
 // ---- C20: time allocation ----
-namespace engine { double importance(double x); }
+// weak: a tree where importance() is no longer an external function still builds; the check then
+// falls back to the properties judged directly on calculateTime
+namespace engine { double importance(double x) __attribute__((weak)); }
 
 // imptable <n> : importance(0..n-1) as exact hex floats
 static std::string op_imptable(std::istringstream& is)
 {
     int n; is >> n;
+    if (!&engine::importance) return "UNAVAILABLE";
     std::string out;
     char buf[64];
     for (int x = 0; x < n; ++x)
